@@ -386,5 +386,43 @@ def send_templates(prog, send_suffix="RaftCore::send", arg_index=1, adt="Message
             continue
         for st in sts:
             out.append(Template(s.fn, s, obj, st, via, len(sts)))
+    out = _instantiate_helpers(prog, out)
     _send_cache[key] = out
+    return out
+
+
+def _instantiate_helpers(prog, tmpls, depth=0):
+    """A private helper that only builds one message from its scalar parameters and sends it
+    unconditionally (`fn ack(&mut self, to, index) { let mut m = ..; m.to = to; m.index = index; send(m) }`)
+    is transparent: its template is re-stated at every in-crate call site with the arguments substituted,
+    so that rules see the same fields and the same guards as if the body were written inline."""
+    from .pg import PG
+    out = []
+    byfn = {}
+    for t in tmpls:
+        byfn.setdefault(t.fn.key, []).append(t)
+    for t in tmpls:
+        f = t.fn
+        uses_param = any(v[0] == "param" and f.body.local_ty(v[1]) in ("u64", "bool", "usize") for k, v in t.fields.items() if isinstance(v, tuple))
+        if not uses_param or f.vis == "Public" or f.is_closure or len(byfn[f.key]) != 1 or t.nstates != 1 or depth > 1:
+            out.append(t)
+            continue
+        g = PG(prog, f)
+        # unconditional: no guard literal dominates the send inside the helper
+        cond = False
+        for n in range(len(g.nodes)):
+            for m, lits in g.edges[n] or []:
+                if lits and (g.nodes[m][0] == t.site.block or g.block_reaches(g.nodes[m][0], lambda b: b == t.site.block)):
+                    cond = True
+        callers = [c for c in prog.all_calls if c.kind == "call" and c.data["callee"] in prog.short and f.key in prog.short[c.data["callee"]] and c.fn.crate == f.crate]
+        if cond or not callers:
+            out.append(t)
+            continue
+        for c in callers:
+            a = prog.an[c.fn.key]
+            args = [a.expr_operand(o, c.at) for o in c.data["term"]["args"]]
+            fields = {k: (subst_params(v, args) if isinstance(v, tuple) else v) for k, v in t.fields.items()}
+            nt = Template(c.fn, c, t.obj, fields, t.via + " (built by helper %s)" % f.name, 1)
+            nt.helper = f
+            out.append(nt)
     return out
